@@ -105,7 +105,8 @@ Print Assumptions percent_percent.
 
 Theorem interp_width_is_right_aligned : forall zero w z tc,
   tc = [] \/ tc = ["d"] -> (zero = true \/ w <> 0 \/ tc <> []) ->
-  format_value (VInt z) (ispec zero w tc) = ipad zero w (dec z).
+  format_value (VInt z) (ispec zero w tc) =
+  if zero then pad_num false true w (sign_of z) (mag_of z) else ipad false w (dec z).
 Proof. exact interp_dec_width_l. Qed.
 Print Assumptions interp_width_is_right_aligned.
 
@@ -130,18 +131,17 @@ Theorem bin_roundtrip_mod_2_64 : forall zero w z,
 Proof. exact interp_bin_roundtrip_l. Qed.
 Print Assumptions bin_roundtrip_mod_2_64.
 
-(* {n:0N} / {n:0Nd}: correct for non-negative values only ... *)
-Theorem interp_zero_pad_partial : forall w z tc, (0 <= z)%Z -> tc = [] \/ tc = ["d"] ->
+(* {n:0N} / {n:0Nd}: sign first, then zeros, then digits; reads back as n - for every n, negative ones
+   included (former finding #27 / C16-interp-zero-pad-sign, repaired by /repo commit 4cd822e) *)
+Theorem interp_zero_pad_keeps_sign_first : forall w z tc, tc = [] \/ tc = ["d"] ->
+  format_value (VInt z) (ispec true w tc) = sign_of z ++ zeros (w - List.length (dec z)) ++ mag_of z /\
   parse_dec (format_value (VInt z) (ispec true w tc)) = Some z.
-Proof. exact interp_zero_pad_nonneg_l. Qed.
-Print Assumptions interp_zero_pad_partial.
+Proof. exact interp_zero_pad_l. Qed.
+Print Assumptions interp_zero_pad_keeps_sign_first.
 
-(* ... the fill goes in front of the sign (DESIGN.md finding #27, known finding C16-interp-zero-pad-sign) *)
-Theorem interp_zero_pad_keeps_sign_first_refuted :
-  exists z w, (z < 0)%Z /\ format_value (VInt z) (ispec true w []) = s2l "0-255" /\
-              parse_dec (format_value (VInt z) (ispec true w [])) = None.
-Proof. exists (-255)%Z, 5. vm_compute. repeat split; reflexivity. Qed.
-Print Assumptions interp_zero_pad_keeps_sign_first_refuted.
+(* the former witness *)
+Example ex_zero_pad_negative : format_value (VInt (-255)) (s2l "05") = s2l "-0255".
+Proof. vm_compute. reflexivity. Qed.
 
 (* ---------------- the interpolation splitter ---------------- *)
 
